@@ -271,6 +271,13 @@ class ConcurrentExecutor(ABC, Generic[CallableType, ResultType]):
                 if self._suspend_exception:
                     raise self._suspend_exception
 
+        except SuspendExecution:
+            # Leaving the TimerScheduler block joined the timer thread. If its resubmission
+            # checkpoint failed meanwhile, that failure must win over the suspension:
+            # a failed checkpoint never ends in PENDING.
+            if self._fatal_exception is not None:
+                raise self._fatal_exception from None
+            raise
         finally:
             # Shutdown without waiting for running threads for early return when
             # completion criteria are met (e.g., min_successful).
